@@ -76,7 +76,8 @@ def every_element(b, site, via=None):
             cands.append((len(body), c, some[0]))
     if not cands:
         return None
-    _, n_, entry = min(cands, key=lambda x: x[0])
+    # the innermost loop: the one whose header is dominated by the headers of all the others (body sizes mislead when a body can leave the loop early and run on)
+    _, n_, entry = max(cands, key=lambda x: (len([y for y in cands if y[1].bb != x[1].bb and b.dominates(y[1].bb, x[1].bb)]), -x[0]))
     return b.all_paths_pass(entry, [site.bb], dst_set={n_.bb})
 
 
